@@ -1,6 +1,8 @@
 import Octo.Model.PacketWindow
 import Octo.Model.Addr
 import Octo.Model.SsConfig
+import Octo.Model.Vmess
+import Octo.Model.Trojan
 import Octo.Crypto.Real
 import Std.Data.HashMap
 /-!
@@ -23,10 +25,28 @@ structure SsStream where
   enc : Ss.Enc := {}
   fr : FrSt Ss.SrvDec
 
+structure VmcStream where
+  c : Vmess.Client
+  fr : FrSt Unit := { st := () }
+
+structure VmsStream where
+  fr : FrSt Vmess.Server
+
+structure TjStream where
+  password : Bytes
+  client : Bool
+  udp : Bool := false
+  addr : Option Addr := none
+  enc : Trojan.ClientEnc := {}
+  fr : FrSt Trojan.SrvSt := { st := .header }
+
 inductive Obj where
   | pw (f : PW.Filter)
   | ssCtx (c : SsCtxObj)
   | ss (s : SsStream)
+  | vmc (s : VmcStream)
+  | vms (s : VmsStream)
+  | tj (s : TjStream)
 
 structure St where
   objs : Std.HashMap String Obj := {}
@@ -150,6 +170,47 @@ def ssRecover (ctx : Ss.Ctx) (sess : Ss.Sess) (w : Bytes) : Bytes × Ss.EncRand 
         | _ => (salt, { now := ts })
       else (salt, { now := ts })
 
+/-- `Uuid::parse_str` for the hyphenated and simple forms -/
+def parseUuid (s : String) : Option Bytes :=
+  match unhex (s.replace "-" "") with
+  | some b => if b.length = 16 then some b else none
+  | none => none
+
+/-- walk the chunks of a VMess body stream with a decoder to recover the random padding bytes the
+implementation appended to each chunk -/
+def vmRecoverPads : Nat → Vmess.Body → Bytes → List Bytes
+  | 0, _, _ => []
+  | fuel+1, b, buf =>
+    match b.unit C buf with
+    | .take b' n _ =>
+      match b.st with
+      | .body pl len => ((buf.take len).drop (len - pl)) :: vmRecoverPads fuel b' (buf.drop n)
+      | _ => vmRecoverPads fuel b' (buf.drop n)
+    | _ => []
+
+structure VmClientRecovered where
+  rand : Vmess.ClientRand
+  pads : List Bytes
+
+def vmRecoverClient (c : Vmess.Client) (w : Bytes) : Option VmClientRecovered :=
+  let authId := w.take 16
+  let plain := C.aesDec (Vmess.kdf16 C c.key [Vmess.saltAuthId]) authId
+  let connNonce := (w.drop 34).take 8
+  match Vmess.openHeader C c.key w with
+  | .ok (h, n) =>
+    let s : Vmess.Session := ⟨(h.drop 1).take 16, (h.drop 17).take 16, h.getD 33 0⟩
+    let padLen := (h.getD 35 0).toNat / 16
+    let hp := (h.take (h.length - 4)).drop (h.length - 4 - padLen)
+    let body := Vmess.Body.new C c.mask c.sec s.reqKey s.reqIv s
+    some { rand := { session := s, headerPadding := hp, authTime := rdBE (plain.take 8), authRand := (plain.drop 8).take 4, connNonce := connNonce },
+           pads := vmRecoverPads (w.length + 2) body (w.drop n) }
+  | _ => none
+
+def vmCall (now : Nat) (sv : Vmess.Server) (b : Bytes) : Call Vmess.Server := Vmess.Server.decode C utf8Ok now sv b
+def vmcCall (c : Vmess.Client) (_ : Unit) (b : Bytes) : Call Unit :=
+  let r := Vmess.Client.decode C c b
+  ⟨(), r.buf, r.res⟩
+
 def ttlLive (now : Nat) (e : Bytes × Nat) : Bool := now ≤ e.2 + Consts.ssSaltTtl
 
 def showRes {α : Type} (f : α → String) : Res α → String
@@ -191,6 +252,30 @@ def step (st : St) (toks : List String) : St × String :=
     match unhexOrDash h with
     | some b => (st, showRes (fun (p : Addr × Bytes) => s!"{showAddr p.1} rest={hexOrDash p.2}") (VmessAddr.read utf8Ok b))
     | none => (st, "bad-op")
+  | "vm.client" :: name :: rest =>
+    match (kv rest "uuid").bind parseUuid, kv rest "cipher", kv rest "cmd", (kv rest "addr").bind parseAddr with
+    | some u, some ci, some cmd, some a =>
+      let sec : Vmess.Security := if ci == "chacha20-poly1305" || ci == "chacha20-ietf-poly1305" then .chacha20 else .aes128gcm
+      let c : Vmess.Client := { key := Vmess.cmdKey C u, sec := sec, cmd := if cmd == "udp" then .udp else .tcp, addr := a }
+      ({ st with objs := st.objs.insert name (.vmc { c := c }) }, "ok")
+    | _, _, _, _ => (st, "err")
+  | "vm.server" :: name :: rest =>
+    match kv rest "users" with
+    | some u =>
+      let ids := (parseUsers u).map fun (_, p) => parseUuid p
+      if ids.all Option.isSome then
+        ({ st with objs := st.objs.insert name (.vms { fr := { st := { keys := (ids.filterMap id).map (Vmess.cmdKey C) } } }) }, "ok")
+      else (st, "err")
+    | none => (st, "bad-op")
+  | "tj.client" :: name :: rest =>
+    match kv rest "password", kv rest "cmd", (kv rest "addr").bind parseAddr with
+    | some p, some cmd, some a =>
+      ({ st with objs := st.objs.insert name (.tj { password := p.toUTF8.toList, client := true, udp := cmd == "udp", addr := some a }) }, "ok")
+    | _, _, _ => (st, "bad-op")
+  | "tj.server" :: name :: rest =>
+    match kv rest "password" with
+    | some p => ({ st with objs := st.objs.insert name (.tj { password := p.toUTF8.toList, client := false }) }, "ok")
+    | none => (st, "bad-op")
   | "ss.cctx" :: name :: rest =>
     match kv rest "cipher", kv rest "password" with
     | some c, some p =>
@@ -216,6 +301,64 @@ def step (st : St) (toks : List String) : St × String :=
     | _ => (st, "bad-op")
   | "st.enc" :: name :: payload :: rest =>
     match st.objs.get? name, unhexOrDash payload with
+    | some (.tj o), some p =>
+      if o.client then
+        let a := o.addr.getD (.v4 [0, 0, 0, 0] 0)
+        let (w, e) := if o.udp then
+            match (kv rest "to").bind parseAddr with
+            | some to => Trojan.clientEncodeUdp C o.password a o.enc p to
+            | none => ([], o.enc)
+          else Trojan.clientEncodeTcp C o.password a o.enc p
+        ({ st with objs := st.objs.insert name (.tj { o with enc := e }) }, hexOrDash w)
+      else
+        match (kv rest "to").bind parseAddr with
+        | some from_ => (st, hexOrDash (Trojan.serverEncodeUdp p from_))
+        | none => (st, hexOrDash (Trojan.serverEncodeTcp p))
+    | some (.vmc o), some p =>
+      let implWire := (kv rest "impl").bind unhexOrDash
+      match o.c.enc, implWire with
+      | none, some w =>
+        match vmRecoverClient o.c w with
+        | some r =>
+          let now := ((kv rest "now").bind String.toNat?).getD r.rand.authTime
+          let tsOk := r.rand.authTime ≤ now + Consts.vmessTimestampJitter + 1 ∧ now ≤ r.rand.authTime + Consts.vmessTimestampJitter + 1
+          match Vmess.Client.encodeFirst C o.c p r.rand r.pads with
+          | .ok (mw, c') => ({ st with objs := st.objs.insert name (.vmc { o with c := c' }) }, (if tsOk then "" else "bad-ts ") ++ hexOrDash mw)
+          | .panic => (st, "panic")
+          | _ => (st, "err")
+        | none =>
+          -- nothing to recover from (the implementation refused or panicked): run the model with dummies
+          let dummy : Vmess.ClientRand := { session := ⟨zeros 16, zeros 16, 0⟩, headerPadding := [], authTime := 0, authRand := zeros 4, connNonce := zeros 8 }
+          match Vmess.Client.encodeFirst C o.c p dummy [] with
+          | .ok _ => (st, "unrecoverable")
+          | .panic => (st, "panic")
+          | _ => (st, "err")
+      | none, none => (st, "need-impl-wire")
+      | some body, w =>
+        let decBody : Vmess.Body := { body with st := .padding }
+        let pads := match w with
+          | some w => vmRecoverPads (w.length + 2) decBody w
+          | none => []
+        match Vmess.Client.encodeNext C o.c p pads with
+        | .ok (mw, c') => ({ st with objs := st.objs.insert name (.vmc { o with c := c' }) }, hexOrDash mw)
+        | _ => (st, "err")
+    | some (.vms o), some p =>
+      let implWire := (kv rest "impl").bind unhexOrDash
+      match o.fr.st.ready with
+      | none => (st, "err")
+      | some r =>
+        let s := r.session
+        let (skip, decBody) : Nat × Vmess.Body := match r.enc with
+          | some b => (0, { b with st := .padding })
+          | none => (38, Vmess.Body.new C r.mask r.sec (s.respKey C) (s.respIv C) s)
+        let pads := match implWire with
+          | some w => vmRecoverPads (w.length + 2) decBody (w.drop skip)
+          | none => []
+        let (res, sv') := Vmess.Server.encode C o.fr.st p pads
+        let o' := { o with fr := { o.fr with st := sv' } }
+        ({ st with objs := st.objs.insert name (.vms o') }, match res with
+          | .ok mw => hexOrDash mw
+          | _ => "err")
     | some (.ss o), some p =>
       match st.objs.get? o.ctxName with
       | some (.ssCtx co) =>
@@ -238,6 +381,25 @@ def step (st : St) (toks : List String) : St × String :=
     | _, _ => (st, "bad-op")
   | "st.feed" :: name :: piece :: rest =>
     match st.objs.get? name, unhexOrDash piece with
+    | some (.tj o), some p =>
+      let (fr', evs) := if o.client then
+          let call : Trojan.SrvSt → Bytes → Call Trojan.SrvSt := fun s b =>
+            let r := if o.udp then Trojan.clientDecodeUdp b else Trojan.clientDecodeTcp b
+            ⟨s, r.buf, r.res⟩
+          frFeed call o.fr p
+        else frFeed (Trojan.serverDecode C o.password) o.fr p
+      ({ st with objs := st.objs.insert name (.tj { o with fr := fr' }) }, showEvents evs)
+    | some (.vmc o), some p =>
+      -- the client decoder state lives in `o.c`; thread it through the calls of one poll loop
+      let now := ((kv rest "now").bind String.toNat?).getD 0
+      let _ := now
+      let call : Vmess.Client → Bytes → Call Vmess.Client := fun c b => Vmess.Client.decode C c b
+      let (fr', evs) := frFeed call { st := o.c, buf := o.fr.buf, ended := o.fr.ended } p
+      ({ st with objs := st.objs.insert name (.vmc { c := fr'.st, fr := { st := (), buf := fr'.buf, ended := fr'.ended } }) }, showEvents evs)
+    | some (.vms o), some p =>
+      let now := ((kv rest "now").bind String.toNat?).getD 0
+      let (fr', evs) := frFeed (vmCall now) o.fr p
+      ({ st with objs := st.objs.insert name (.vms { o with fr := fr' }) }, showEvents evs)
     | some (.ss o), some p =>
       match st.objs.get? o.ctxName with
       | some (.ssCtx co) =>
@@ -253,6 +415,21 @@ def step (st : St) (toks : List String) : St × String :=
     | _, _ => (st, "bad-op")
   | ["st.eof", name] =>
     match st.objs.get? name with
+    | some (.tj o) =>
+      let (fr', evs) := if o.client then
+          let call : Trojan.SrvSt → Bytes → Call Trojan.SrvSt := fun s b =>
+            let r := if o.udp then Trojan.clientDecodeUdp b else Trojan.clientDecodeTcp b
+            ⟨s, r.buf, r.res⟩
+          frEof call o.fr
+        else frEof (Trojan.serverDecode C o.password) o.fr
+      ({ st with objs := st.objs.insert name (.tj { o with fr := fr' }) }, showEvents evs)
+    | some (.vmc o) =>
+      let call : Vmess.Client → Bytes → Call Vmess.Client := fun c b => Vmess.Client.decode C c b
+      let (fr', evs) := frEof call { st := o.c, buf := o.fr.buf, ended := o.fr.ended }
+      ({ st with objs := st.objs.insert name (.vmc { c := fr'.st, fr := { st := (), buf := fr'.buf, ended := fr'.ended } }) }, showEvents evs)
+    | some (.vms o) =>
+      let (fr', evs) := frEof (vmCall 0) o.fr
+      ({ st with objs := st.objs.insert name (.vms { o with fr := fr' }) }, showEvents evs)
     | some (.ss o) =>
       match st.objs.get? o.ctxName with
       | some (.ssCtx co) =>
